@@ -18,7 +18,10 @@
 #define BZ_MEM_ERROR (-3)
 #define BZ_DATA_ERROR (-4)
 #define BZ_DATA_ERROR_MAGIC (-5)
+#define BZ_IO_ERROR (-6)
+#define BZ_UNEXPECTED_EOF (-7)
 #define BZ_OUTBUFF_FULL (-8)
+#define BZ_CONFIG_ERROR (-9)
 
 typedef struct {
 	char *next_in;
@@ -50,6 +53,14 @@ static int BZ2_bzDecompressInit(bz_stream *s, int verbosity, int small)
 	return BZ_OK;
 }
 
+static int toy_bz_errcode(void)
+{
+	static const int codes[] = { BZ_DATA_ERROR, BZ_DATA_ERROR_MAGIC, BZ_MEM_ERROR, BZ_PARAM_ERROR,
+				     BZ_SEQUENCE_ERROR, BZ_IO_ERROR, BZ_UNEXPECTED_EOF, BZ_CONFIG_ERROR };
+	static unsigned n;
+	return codes[n++ % (sizeof(codes) / sizeof(codes[0]))];
+}
+
 static int BZ2_bzCompress(bz_stream *s, int action)
 {
 	size_t c, p;
@@ -58,7 +69,7 @@ static int BZ2_bzCompress(bz_stream *s, int action)
 	s->next_in += c; s->avail_in -= c; s->total_in_lo32 += c;
 	s->next_out += p; s->avail_out -= p; s->total_out_lo32 += p;
 	if (r == TOY_END) return BZ_STREAM_END;
-	if (r == TOY_ERR) return BZ_DATA_ERROR;
+	if (r == TOY_ERR) return toy_bz_errcode();
 	return action == BZ_FINISH ? BZ_FINISH_OK : (action == BZ_FLUSH ? BZ_FLUSH_OK : BZ_RUN_OK);
 }
 
@@ -70,7 +81,7 @@ static int BZ2_bzDecompress(bz_stream *s)
 	s->next_in += c; s->avail_in -= c; s->total_in_lo32 += c;
 	s->next_out += p; s->avail_out -= p; s->total_out_lo32 += p;
 	if (r == TOY_END) return BZ_STREAM_END;
-	if (r == TOY_ERR) return BZ_DATA_ERROR;
+	if (r == TOY_ERR) return toy_bz_errcode();
 	return BZ_OK;
 }
 
